@@ -1,40 +1,36 @@
 #!/bin/bash
-# usage: tools/seedcheck.sh <PROPERTY> <seed dir in worktree, e.g. /tmp/wt/C01/_seed1> <name>
-# verifies a seeded change independently (suite still passes, demo fails with / passes without), runs the property's
-# check against it in /repo, reverts, and files it under /verif/seeded/<name>/
+# usage: tools/seedcheck.sh <PROPERTY> <seed dir in a scratch worktree, e.g. /tmp/wt/C01/_seed1> <name>
+# verifies a seeded change independently (suite still passes, demo fails with / passes without) and runs the property's check
+# against the PATCHED SCRATCH WORKTREE (VERIF_REPO), never touching /repo; files it under /verif/seeded/<name>/
 set -u
 pid=$1; sd=$2; name=$3
 wt=$(dirname "$sd")
 V=/verif
 out=$V/seeded/$name
 mkdir -p "$out"
-cp "$sd/patch.diff" "$out/patch.diff"; cp "$sd/demo.py" "$out/demo.py"; cp "$sd/notes.md" "$out/notes.md" 2>/dev/null
-cd "$wt" && git checkout -q -- . 
+cp "$sd/patch.diff" "$out/patch.diff"; cp "$sd"/*.py "$out/" 2>/dev/null; cp "$sd/notes.md" "$out/notes.md" 2>/dev/null
+cd "$wt" && git checkout -q -- .
 d0=$(cd "$wt" && /venv/bin/python "$sd/demo.py" >/dev/null 2>&1; echo $?)
 if ! git -C "$wt" apply --check "$sd/patch.diff" 2>/dev/null; then echo "PATCH DOES NOT APPLY in worktree"; fi
 git -C "$wt" apply "$sd/patch.diff"
 suite=$(cd "$wt" && /venv/bin/python -m pytest -q -p no:cacheprovider --timeout=900 2>&1 | tail -1)
 d1=$(cd "$wt" && /venv/bin/python "$sd/demo.py" >/dev/null 2>&1; echo $?)
+tmp=$(mktemp -d)
+(cd $V && VERIF_REPO="$wt" VERIF_OUT_DIR="$tmp" timeout 3000 ./check $pid > "$out/check_output.txt" 2>&1; echo $? > "$out/check_rc.txt")
+rm -rf "$tmp"
 git -C "$wt" checkout -q -- .
-# now against /repo with the check
-if git -C /repo apply --check "$out/patch.diff" 2>/dev/null; then
-  git -C /repo apply "$out/patch.diff"
-  (cd $V && timeout 3000 ./check $pid > "$out/check_output.txt" 2>&1; echo $? > "$out/check_rc.txt")
-  git -C /repo checkout -q -- .
-  rc=$(cat "$out/check_rc.txt")
-else
-  rc="patch-does-not-apply-to-/repo"
-fi
+applies=$(git -C /repo apply --check "$out/patch.diff" 2>/dev/null && echo yes || echo no)
+rc=$(cat "$out/check_rc.txt")
 viol=$(grep -c "^VIOLATION" "$out/check_output.txt" 2>/dev/null)
 first=$(grep -m1 "failed check" "$out/check_output.txt" 2>/dev/null)
-python3 - "$pid" "$name" "$d0" "$d1" "$suite" "$rc" "$viol" "$first" "$out" <<'PY'
-import sys, json
-pid, name, d0, d1, suite, rc, viol, first, out = sys.argv[1:]
-notes = open(out + '/notes.md').read() if __import__('os').path.exists(out + '/notes.md') else ''
+python3 - "$pid" "$name" "$d0" "$d1" "$suite" "$rc" "$viol" "$first" "$out" "$applies" <<'PY'
+import sys, json, os
+pid, name, d0, d1, suite, rc, viol, first, out, applies = sys.argv[1:]
+notes = open(out + '/notes.md').read() if os.path.exists(out + '/notes.md') else ''
 meta = {'property': pid, 'name': name, 'what_it_needs_to_manifest': notes.strip()[:1500],
-        'verified': {'demo_exit_unpatched': int(d0), 'demo_exit_patched': int(d1), 'suite_with_patch': suite.strip(),
+        'verified': {'demo_exit_unpatched': int(d0), 'demo_exit_patched': int(d1), 'suite_with_patch': suite.strip(), 'patch_applies_to_repo_head': applies,
                      'commands': ['git apply patch.diff (scratch worktree)', '/venv/bin/python -m pytest -q -p no:cacheprovider --timeout=900', '/venv/bin/python demo.py',
-                                  'git -C /repo apply patch.diff; ./check %s; git -C /repo checkout -- .' % pid]},
+                                  'VERIF_REPO=<patched scratch worktree> ./check %s' % pid]},
         'check': {'exit': rc, 'violation_lines': int(viol or 0), 'first_failed_check': first.strip()},
         'detected': rc == '1'}
 json.dump(meta, open(out + '/meta.json', 'w'), indent=1)
